@@ -114,15 +114,19 @@ def run_unit(kind, key, tier, known, seed=0, inner=1):
             # check (its vacuity cover) into `unknown`
             import multiprocessing as mp
             k = min(inner, n) if (inner > 1 and n > 8) else 1
+            if n > 8:
+                k = max(k, 4)              # open obligations of broken code cost tens of seconds each
             with mp.get_context('fork').Pool(k, maxtasksperchild=1) as pool:
                 out_obls = pool.map(_solve_one, range(n), chunksize=1)
             again = [i for i, d in enumerate(out_obls)
                      if d['status'] == 'unknown' and d['kind'] != 'canary']
-            if again:
-                # one at a time, each in a fresh child
-                for i in again:
-                    with mp.get_context('fork').Pool(1) as pool:
-                        out_obls[i] = pool.map(_solve_retry, [i])[0]
+            if 0 < len(again) <= 6:
+                # few open obligations: the typical picture of a busy machine, not of
+                # broken code (which leaves many open and is decided by the native
+                # replay anyway).  At most three at a time, each in a fresh child.
+                with mp.get_context('fork').Pool(min(3, len(again)), maxtasksperchild=1) as pool:
+                    for i, d in zip(again, pool.map(_solve_retry, again, chunksize=1)):
+                        out_obls[i] = d
         else:
             out_obls = []
         return dict(kind=kind, key=key, short=res.short, status=res.status,
